@@ -41,6 +41,8 @@ UNIT = {
                 # killed by SIGINT / SIGKILL (how the engine cancels) is reported as cancelled, everything else that is not success as failed
                 ('P:C10,P:C16', '(g_reaped && (g_status_word & 0x7f) != 0 && (g_status_word & 0x7f) != 0x7f && ((g_status_word & 0x7f) == 2 || (g_status_word & 0x7f) == 9)) ==> g_completion_result.status == %sCancelled' % PS),
                 ('P:C10,P:C16', '(!g_reaped) ==> g_completion_result.status == %sFailed' % PS),
+                # an interrupted wait (EINTR = 4) is retried: the process is given up, unreaped, only for another reason
+                ('P:C16,P:C10', '(!g_reaped) ==> g_errno != 4'),
                 ('P:C10,P:C16', 'g_reaped ==> g_completion_result.exitCode == g_status_word'),
                 # the release descriptor is closed only after the wait, the pid leaves the process group only once reaped or given up
                 'releaseFd->closed != 0 && g_removed <= 1',
